@@ -29,6 +29,11 @@ type chk struct {
 
 func (c *chk) bad(clause, site, format string, a ...interface{}) {
 	c.fails++
+	if c.fails > 25 {
+		// one broken representation fails thousands of probes: count them, keep the first 25 with details
+		c.rep.ViolationCount++
+		return
+	}
 	d := c.desc
 	if d.Kind == "subset" {
 		d.Keys = nil
@@ -292,11 +297,23 @@ func (c *chk) checkBucket(b *imodel.TrieBucket, probes []string, light bool) {
 			}
 		}
 	}()
+	var keyBytes [][]byte
 	like := func(name string, prefix, sub []byte, fn func(a, b []byte) bool) {
 		var want []uint32
-		for _, pr := range m.pairs {
-			if fn([]byte(pr.k), sub) {
-				want = append(want, pr.v)
+		if name == "prefix" {
+			// model: the keys having prefix sub are exactly the sorted map's range [lo,hi)
+			lo, hi := m.prefixRange(string(sub))
+			for i := lo; i < hi; i++ {
+				want = append(want, m.pairs[i].v)
+			}
+		} else {
+			if keyBytes == nil {
+				keyBytes = toBytes(m.keys())
+			}
+			for i, pr := range m.pairs {
+				if fn(keyBytes[i], sub) {
+					want = append(want, pr.v)
+				}
 			}
 		}
 		got := b.FindValuesByLike(prefix, sub, fn, nil)
